@@ -22,5 +22,7 @@ func controlsC04() []Control {
 		{Name: "heads-up initial dealer may be the big blind seat", Expect: "R7", Mutate: replaceIn("(*seatManager).initPositions", "seatPlayer.Active() && seatID != firstSeatID", "seatPlayer.Active()", 0)},
 		{Name: "wrap-around waiting arc includes the big-blind seat", Expect: "R8", Mutate: replaceIn("(*seatManager).isBetweenDealerBB", "i < (bbSeatID + sm.MaxSeat)", "i <= (bbSeatID + sm.MaxSeat)", 0)},
 		{Name: "waiting arc includes the dealer seat", Expect: "R8", Mutate: replaceIn("(*seatManager).isBetweenDealerBB", "targetSeatID > dealerSeatID", "targetSeatID >= dealerSeatID", 0)},
+		{Name: "positions re-initialised on every hand", Expect: "R9", Mutate: replaceIn("(*tableEngine).openGame", "if !te.sm.IsInitPositions() {", "if te.sm.IsInitPositions() {", 0)},
+		{Name: "positions rotated twice per hand", Expect: "R9", Mutate: replaceIn("(*tableEngine).openGame", "\t// Step 5:", "\tte.sm.RotatePositions()\n\t// Step 5:", 0)},
 	}
 }
